@@ -1,6 +1,7 @@
 package main
 
 import (
+	"os"
 	"fmt"
 	"go/types"
 	"regexp"
@@ -82,6 +83,12 @@ func RuleK1(r *Report, c *Codec) {
 					continue
 				}
 				n++
+				if os.Getenv("UHLINT_DEBUG") == "K1:"+k {
+					fmt.Fprintf(os.Stderr, "K1 %s path outcome=%s %s access=%v\n", key, cp.Path.Outcome, cp.Path.Detail, cp.Access)
+					for _, e := range cp.Path.Events {
+						fmt.Fprintf(os.Stderr, "    ev %s\n", cut(e.String(), 200))
+					}
+				}
 				for _, a := range cp.Access {
 					if a.Unrel {
 						bad = "buffer access " + a.Text + " is not of the form offset+c"
@@ -731,6 +738,9 @@ func RuleG1In(r *Report, p *Program, only string) {
 		if fn.Name() == "init" || strings.HasPrefix(fn.Name(), "init#") || fn.Synthetic != "" && strings.Contains(fn.Synthetic, "package initializer") {
 			continue
 		}
+		if p.initOnly(fn) {
+			continue // a helper that only the package initialiser calls (register(..), a table builder)
+		}
 		for _, b := range fn.Blocks {
 			for _, in := range b.Instrs {
 				n++
@@ -799,7 +809,7 @@ func isInitOnly(p *Program, pkgPath, name string) bool {
 		return true
 	}
 	for _, fn := range p.AllFuncs {
-		if fn.Name() == "init" {
+		if fn.Name() == "init" || p.initOnly(fn) {
 			continue
 		}
 		for _, b := range fn.Blocks {
